@@ -384,7 +384,9 @@ def run_job(job):
 
     r = random.Random(job.get("seed", 0))
     out = {"id": job.get("id")}
-    with CodegenRun(job["sources"], {"package": job.get("package", "gen17")}, job.get("entry"), job.get("timeout", 30)) as run:
+    options = {"package": job.get("package", "gen17")}
+    options.update(job.get("options") or {})
+    with CodegenRun(job["sources"], options, job.get("entry"), job.get("timeout", 30)) as run:
         res = run.result
         out.update({"status": res["status"], "stage": res["stage"], "error": res["error"],
                     "log": res["log"], "warnings": res["warnings"]})
